@@ -20,6 +20,10 @@ CLAIMS = {
          "Trusted: Coq kernel, hand-written model (tied by correspondence only), leaf_driver.cpp, Python observer, extraction. MD5 is idealised (premises of c13_checksum_mode). Unreadable files cannot be produced when running as root (branch modelled, not exercised).",
          "DESIGN.md 4/C13"),
 }
+CLAIMS["C09"] = ("Coq unique-decoding theorems over a transliterated token model of ExternalCommand/ShellCommand/BuildNode::getSignature (ideal hash as explicit premise); exact 64-bit tie: real loader signature == real llvm::hash_combine folded over the model's tokens; one-attribute pair oracle; CLI null-build and re-run histories",
+ "Proved for all command definitions (unbounded lists, arbitrary bytes): the token sequence fed to the hash chain determines every signature-relevant part (name, inputs, outputs, flags, args, env, deps, deps-style, explicit signature) and nothing else; every list-boundary move, adjacent-argument merge/shift and single-attribute edit changes it; under the ideal-hash premise signatures differ iff relevant parts differ; the re-run decision (signature / output info / always-out-of-date / stored value kind) is characterised exactly; the pre-repair chain is refuted with witnesses. Every run: 1800+ generated definitions loaded by the real BuildFile loader must hash to exactly the fold of the real llvm::hash_combine over the model's tokens; 1300+ one-attribute pairs must differ; signatures recomputed in a second process must match; CLI histories check null builds across processes and re-runs after each kind of edit.",
+ "Trusted: Coq kernel, hand-written token model (tied by exact 64-bit equality on generated definitions), sig_driver.cpp, extraction, comparator. llvm::hash_combine idealised as collision-free on compared token lists (explicit theorem premise). working-directory/control-enabled are not hashed by design (documented list).",
+ "DESIGN.md 4/C09")
 NOT_YET = "check not built yet (work proceeds in the order of DESIGN.md section 7); not claimed until a kernel-checked theorem tied to the code by a running correspondence exists"
 
 commits = subprocess.run(["git", "-C", "/repo", "log", "--format=%h %s"], capture_output=True, text=True).stdout.splitlines()
